@@ -5,7 +5,7 @@
    the statement is decided on every run by the extracted monitor mon_nodes on the real engine's hook trace. *)
 From Coq Require Import NArith ZArith List Permutation.
 Import ListNotations.
-From JV Require Import Gen.Consts Model.Chess Model.Eval Model.TT Model.Search Model.SearchChess Model.Monitors Model.Abs Proofs.SearchBalance Proofs.SortProofs Proofs.SearchNodes Proofs.ZobristProofs Proofs.GenProofs Proofs.GenOk Proofs.KingsProofs Proofs.MakeGen Proofs.RangeProofs Proofs.NkProofs Proofs.LegalInv Proofs.LegalInvB.
+From JV Require Import Gen.Consts Model.Chess Model.Eval Model.TT Model.Search Model.SearchChess Model.Monitors Model.Abs Proofs.SearchBalance Proofs.SortProofs Proofs.SearchNodes Proofs.ZobristProofs Proofs.GenProofs Proofs.GenOk Proofs.KingsProofs Proofs.MakeGen Proofs.RangeProofs Proofs.NkProofs Proofs.LegalInv Proofs.LegalInvB Proofs.RulesLevel.
 
 Theorem C06_fuel : forall pollp stop_at bypass g depth t rt ri,
   chess_search pollp stop_at bypass g depth t rt ri <> SFuel.
@@ -40,6 +40,19 @@ Theorem C06_verdict_no_legal_move : forall rec_n g depth nd inchk ms searched ta
   nloop c_make hash mcap c_promo c_hidx rec_n g depth nd inchk ms searched O ta b ex e = LDone ta' e' O ex' ->
   Forall (fun m => c_make g m = None) ms.
 Proof. intros. eapply nloop_no_legal. eassumption. Qed.
+
+(* ... and then, for a position satisfying the invariant, the verdict is the rules' verdict: no legal move exists under the rules, and
+   the flag printed with the verdict (is_in_check of the node) says whether that is checkmate or stalemate (through C01's completeness) *)
+Theorem C06_verdicts_are_the_rules_verdicts : forall rec_n g depth nd inchk ms searched ta b ex (e : c_env) ta' e' ex',
+  legal_inv g -> Permutation ms (generate_moves g true) ->
+  nloop c_make hash mcap c_promo c_hidx rec_n g depth nd inchk ms searched O ta b ex e = LDone ta' e' O ex' ->
+  ChessSpec.legal_moves (abs g) = [] /\
+  ChessSpec.checkmate (abs g) = is_in_check g (white g) /\ ChessSpec.stalemate (abs g) = negb (is_in_check g (white g)).
+Proof.
+  intros rec_n g depth nd inchk ms searched ta b ex e ta' e' ex' LI P H.
+  pose proof (C06_verdict_no_legal_move rec_n g depth nd inchk ms searched ta b ex e ta' e' ex' H) as F.
+  split; [exact (no_accepted_no_legal g ms LI P F)|exact (verdict_is_the_rules_verdict g ms LI P F)].
+Qed.
 
 (* consistency and stored key = recomputed key hold at every position reachable from a consistent root with a right key by accepted
    generated moves that capture no king and by passes (reach_nk = the reachability relation of C06_nodes_reachable with the
@@ -88,6 +101,7 @@ Print Assumptions C06_fuel.
 Print Assumptions C06_sort.
 Print Assumptions C06_nodes_reachable.
 Print Assumptions C06_verdict_no_legal_move.
+Print Assumptions C06_verdicts_are_the_rules_verdicts.
 Print Assumptions C06_reachable_positions_consistent.
 Print Assumptions C06_every_examined_position_is_consistent.
 Print Assumptions C06_invariant_step.
